@@ -579,6 +579,323 @@ def likelihood_list(tree, meth):
     return a, b
 
 
+# ---------------------------------------------------------------------------------------------- HeteroskedasticNoise
+
+def hetero_forward(tree):
+    """`HeteroskedasticNoise.forward` -> {"branches": [...], "protocol": [...], "arms": {...}, "transform": bool}"""
+    fn = _method(_cls(tree, "HeteroskedasticNoise"), "forward")
+    if "noise" not in [a.arg for a in fn.args.kwonlyargs]:
+        _fail("HeteroskedasticNoise.forward: expected the keyword-only argument `noise`")
+    body = _body(fn)
+    st = body[0] if body else None
+    if not (isinstance(st, ast.If) and isinstance(st.test, ast.Compare) and _is_name(st.test.left, "noise")
+            and isinstance(st.test.ops[0], ast.IsNot) and isinstance(st.test.comparators[0], ast.Constant)
+            and st.test.comparators[0].value is None and not st.orelse and len(st.body) == 1
+            and isinstance(st.body[0], ast.Return) and _call_name(st.body[0].value) == "DiagLinearOperator"
+            and len(st.body[0].value.args) == 1 and _is_name(st.body[0].value.args[0], "noise")):
+        _fail("HeteroskedasticNoise.forward: first statement must be `if noise is not None: return DiagLinearOperator(noise)`", st)
+    proto, arms, transform = [], None, None
+    mode_var = None
+
+    def model_call(e):
+        return (isinstance(e, ast.Call) and _is_self_attr(e.func, "noise_model") and len(e.args) == 1
+                and isinstance(e.args[0], ast.Starred) and _src(e.args[0].value) in ("params", "params[0]") and not e.keywords)
+
+    def events(stmts, prefix=""):
+        nonlocal mode_var
+        for t in stmts:
+            if isinstance(t, ast.Assign) and len(t.targets) == 1 and isinstance(t.targets[0], ast.Name) \
+                    and _src(t.value) == "self.noise_model.training":
+                mode_var = t.targets[0].id
+                proto.append(prefix + "save-mode")
+            elif isinstance(t, ast.Expr) and _src(t.value) == "self.noise_model.eval()":
+                proto.append(prefix + "eval")
+            elif isinstance(t, ast.Expr) and isinstance(t.value, ast.Call) and _src(t.value.func) == "self.noise_model.train":
+                if not (len(t.value.args) == 1 and _is_name(t.value.args[0], mode_var or "")):
+                    _fail("HeteroskedasticNoise.forward: the mode must be restored to the remembered one", t)
+                proto.append(prefix + "restore-mode")
+            elif isinstance(t, ast.With):
+                for it in t.items:     # settings contexts: detach_test_caches(False), debug(False)
+                    if not (_call_name(it.context_expr) in ("detach_test_caches", "debug")):
+                        _fail("HeteroskedasticNoise.forward: context manager outside the vocabulary", it.context_expr)
+                events(t.body, prefix)
+            elif isinstance(t, ast.If) and all(isinstance(u, ast.Assign) and _is_name(u.targets[0], "output") and model_call(u.value)
+                                               for u in t.body + t.orelse) and t.orelse:
+                proto.append(prefix + "call")       # `noise_model(*params[0])` / `noise_model(*params)`: how the inputs are packed
+            elif isinstance(t, ast.Assign) and _is_name(t.targets[0], "output") and model_call(t.value):
+                proto.append(prefix + "call")
+            elif isinstance(t, ast.Try):
+                if t.handlers or t.orelse:
+                    _fail("HeteroskedasticNoise.forward: try with handlers is outside the vocabulary", t)
+                events(t.body, prefix)
+                events(t.finalbody, "finally:")
+            else:
+                return t
+        return None
+
+    rest = body[1:]
+    k = 0
+    while k < len(rest):
+        r = events([rest[k]])
+        if r is not None:
+            break
+        k += 1
+    for t in rest[k:]:
+        if isinstance(t, ast.If) and _src(t.test) == "not isinstance(output, MultivariateNormal)" and not t.orelse \
+                and all(isinstance(u, ast.Raise) for u in t.body):
+            continue
+        if isinstance(t, ast.Assign) and _is_name(t.targets[0], "noise_diag"):
+            v = t.value
+
+            def arm(e):
+                if _src(e) == "output.mean":
+                    return "mean"
+                if _src(e) == "output.mean[..., self._noise_indices]":
+                    return "meanidx"
+                _fail("HeteroskedasticNoise.forward: noise_diag arm outside the vocabulary", e)
+            if isinstance(v, ast.IfExp) and _src(v.test) == "self._noise_indices is None":
+                arms = {"none": arm(v.body), "idx": arm(v.orelse)}
+            elif isinstance(v, ast.IfExp) and _src(v.test) == "self._noise_indices is not None":
+                arms = {"idx": arm(v.body), "none": arm(v.orelse)}
+            else:
+                _fail("HeteroskedasticNoise.forward: noise_diag must be `output.mean if self._noise_indices is None else …`", v)
+            continue
+        if isinstance(t, ast.Return):
+            v = t.value
+            if _call_name(v) == "DiagLinearOperator" and len(v.args) == 1 and not v.keywords:
+                if _src(v.args[0]) == "self._noise_constraint.transform(noise_diag)":
+                    transform = True
+                    continue
+                if _is_name(v.args[0], "noise_diag"):
+                    transform = False
+                    continue
+            _fail("HeteroskedasticNoise.forward: return value outside the vocabulary", v)
+        _fail("HeteroskedasticNoise.forward: statement outside the vocabulary", t)
+    if arms is None or transform is None:
+        _fail("HeteroskedasticNoise.forward: incomplete")
+    if arms != {"none": "mean", "idx": "meanidx"}:
+        _fail(f"HeteroskedasticNoise.forward: noise_indices arms outside the vocabulary: {arms}")
+    return {"protocol": proto, "transform": transform}
+
+
+# ---------------------------------------------------------------------------------------------- Dirichlet
+
+def _dscalar(e, env):
+    """elementwise expression of `_prepare_targets` -> Lean scalar term (parameters `log`, `half`)"""
+    if isinstance(e, ast.Name):
+        if e.id in env:
+            return env[e.id]
+        _fail("Dirichlet _prepare_targets: unknown name", e)
+    if isinstance(e, ast.Constant) and isinstance(e.value, (int, float)):
+        if e.value == 1:
+            return "1"
+        if e.value == 0.5:
+            return "half"
+        if e.value == 2:
+            return "(1 + 1)"
+        _fail("Dirichlet _prepare_targets: constant outside the vocabulary", e)
+    if isinstance(e, ast.BinOp):
+        op = {ast.Add: "+", ast.Sub: "-", ast.Mult: "*", ast.Div: "/"}.get(type(e.op))
+        if op is None:
+            _fail("Dirichlet _prepare_targets: operator outside the vocabulary", e)
+        return f"({_dscalar(e.left, env)} {op} {_dscalar(e.right, env)})"
+    if isinstance(e, ast.Call) and isinstance(e.func, ast.Attribute):
+        f = e.func
+        if f.attr == "log" and _is_name(f.value, "torch") and len(e.args) == 1:
+            return f"(log {_dscalar(e.args[0], env)})"
+        if f.attr == "log" and not e.args:
+            return f"(log {_dscalar(f.value, env)})"
+        if f.attr == "reciprocal" and not e.args:
+            return f"(1 / {_dscalar(f.value, env)})"
+        if f.attr == "reciprocal" and _is_name(f.value, "torch") and len(e.args) == 1:
+            return f"(1 / {_dscalar(e.args[0], env)})"
+    _fail("Dirichlet _prepare_targets: expression outside the vocabulary", e)
+
+
+def dirichlet(tree):
+    cls = _cls(tree, "DirichletClassificationLikelihood")
+    fn = _method(cls, "_prepare_targets")
+    names = [a.arg for a in fn.args.args]
+    if names[:3] != ["self", "targets", "alpha_epsilon"]:
+        _fail("Dirichlet _prepare_targets: signature changed", fn.args)
+    defaults = dict(zip(names[len(names) - len(fn.args.defaults):], fn.args.defaults))
+    d = defaults.get("alpha_epsilon")
+    if not (isinstance(d, ast.Constant) and isinstance(d.value, float)):
+        _fail("Dirichlet _prepare_targets: alpha_epsilon must have a float default")
+    info = {"default_eps": d.value, "has_nc_arg": "num_classes" in names}
+    env = {}
+    alpha0 = onehot = None
+    ret = None
+
+    def infer(v):
+        return _src(v) == "int(targets.max() + 1)"
+    for st in _body(fn):
+        if isinstance(st, ast.Assign) and _is_name(st.targets[0], "num_classes") and infer(st.value):
+            info["nc_infer"] = "always"
+        elif isinstance(st, ast.If) and _src(st.test) == "num_classes is None" and not st.orelse and len(st.body) == 1 \
+                and isinstance(st.body[0], ast.Assign) and _is_name(st.body[0].targets[0], "num_classes") and infer(st.body[0].value):
+            info["nc_infer"] = "when-not-given"
+        elif isinstance(st, ast.Assign) and _is_name(st.targets[0], "alpha") and alpha0 is None:
+            v = st.value
+            if not (isinstance(v, ast.BinOp) and isinstance(v.op, ast.Mult) and _is_name(v.left, "alpha_epsilon")
+                    and _call_name(v.right) == "ones" and len(v.right.args) == 2):
+                _fail("Dirichlet _prepare_targets: alpha must start as alpha_epsilon * torch.ones(n, num_classes)", st)
+            dims = tuple(_src(a) for a in v.right.args)
+            lay = {("targets.shape[-1]", "num_classes"): ("point", "class"), ("num_classes", "targets.shape[-1]"): ("class", "point")}.get(dims)
+            if lay is None:
+                _fail("Dirichlet _prepare_targets: shape of alpha outside the vocabulary", v.right)
+            alpha0 = lay
+        elif isinstance(st, ast.Assign) and isinstance(st.targets[0], ast.Subscript) and _is_name(st.targets[0].value, "alpha"):
+            tgt = st.targets[0]
+            idx = tgt.slice.elts if isinstance(tgt.slice, ast.Tuple) else None
+            if idx is None or len(idx) != 2:
+                _fail("Dirichlet _prepare_targets: one-hot index outside the vocabulary", st)
+            kinds = tuple({"torch.arange(len(targets))": "arange", "targets": "labels"}.get(_src(a)) for a in idx)
+            if None in kinds or sorted(kinds) != ["arange", "labels"]:
+                _fail("Dirichlet _prepare_targets: one-hot index outside the vocabulary", st)
+            v = st.value
+            if not (isinstance(v, ast.BinOp) and isinstance(v.op, ast.Add) and _src(v.left) == _src(tgt)
+                    and isinstance(v.right, ast.Constant) and v.right.value == 1):
+                _fail("Dirichlet _prepare_targets: the label entry must be incremented by 1.0", st)
+            onehot = kinds
+        elif isinstance(st, ast.Assign) and isinstance(st.targets[0], ast.Name) and st.targets[0].id in ("sigma2_i", "transformed_targets"):
+            if alpha0 is None or onehot is None:
+                _fail("Dirichlet _prepare_targets: alpha is not complete before it is used", st)
+            env.setdefault("alpha", "a")
+            env[st.targets[0].id] = _dscalar(st.value, env)
+        elif isinstance(st, ast.Return):
+            ret = st.value
+        else:
+            _fail("Dirichlet _prepare_targets: statement outside the vocabulary", st)
+    if ret is None or not isinstance(ret, ast.Tuple) or len(ret.elts) != 3 or "sigma2_i" not in env or "transformed_targets" not in env \
+            or "nc_infer" not in info:
+        _fail("Dirichlet _prepare_targets: incomplete")
+
+    def ret_layout(e, name):
+        """-> transposed?  accepts <name>[.transpose(-2, -1)][.type(dtype)]"""
+        tr = False
+        while isinstance(e, ast.Call) and isinstance(e.func, ast.Attribute):
+            if e.func.attr == "type" and len(e.args) == 1:
+                e = e.func.value
+            elif e.func.attr == "transpose" and [_src(a) for a in e.args] in (["-2", "-1"], ["-1", "-2"]):
+                tr = not tr
+                e = e.func.value
+            else:
+                break
+        if e.__class__ is ast.Attribute and e.attr == "mT":
+            tr, e = not tr, e.value
+        if not _is_name(e, name):
+            _fail(f"Dirichlet _prepare_targets: returned {name} outside the vocabulary", e)
+        return tr
+    noise_tr = ret_layout(ret.elts[0], "sigma2_i")
+    targ_tr = ret_layout(ret.elts[1], "transformed_targets")
+    if not _is_name(ret.elts[2], "num_classes"):
+        _fail("Dirichlet _prepare_targets: third return value must be num_classes", ret.elts[2])
+    # entry [p, q] of alpha in the (dim0, dim1) layout of the tensor
+    info.update(alpha_layout=list(alpha0), onehot=list(onehot), noise_transposed=noise_tr, sigma2=env["sigma2_i"],
+                target=env["transformed_targets"])
+
+    # ---- __init__
+    init = _method(cls, "__init__")
+    got = {}
+    for st in ast.walk(init):
+        if isinstance(st, ast.Assign) and _call_name(st.value) == "_prepare_targets":
+            c = st.value
+            kws = {k.arg: _src(k.value) for k in c.keywords}
+            if not (len(c.args) == 1 and _is_name(c.args[0], "targets") and kws.get("alpha_epsilon") == "alpha_epsilon"
+                    and isinstance(st.targets[0], ast.Tuple) and len(st.targets[0].elts) == 3):
+                _fail("Dirichlet __init__: must call self._prepare_targets(targets, alpha_epsilon=alpha_epsilon, …)", st)
+            got["names"] = [_src(t) for t in st.targets[0].elts]
+        if isinstance(st, ast.Call) and _src(st.func) == "super().__init__":
+            kws = {k.arg: _src(k.value) for k in st.keywords if k.arg}
+            got["super"] = kws
+        if isinstance(st, (ast.Assign, ast.AnnAssign)) and st.value is not None:
+            tg = _src(st.targets[0] if isinstance(st, ast.Assign) else st.target)
+            if tg == "self.transformed_targets":
+                got["tt"] = st.value
+            if tg in ("self.alpha_epsilon", "self.num_classes"):
+                got[tg] = _src(st.value)
+    if "names" not in got or "super" not in got or "tt" not in got:
+        _fail("Dirichlet __init__: structure outside the vocabulary")
+    if got["super"].get("noise") != got["names"][0] or got["super"].get("batch_shape") != f"torch.Size(({got['names'][2]},))":
+        _fail("Dirichlet __init__: the fixed noise must be the first value of _prepare_targets and batch_shape (num_classes,)")
+    if got.get("self.alpha_epsilon") != "alpha_epsilon" or got.get("self.num_classes") != got["names"][2]:
+        _fail("Dirichlet __init__: self.alpha_epsilon / self.num_classes must record the constructor's values")
+    info["target_transposed"] = targ_tr ^ ret_layout(got["tt"], got["names"][1])
+
+    # ---- __call__(…, targets=…)
+    call = _method(cls, "__call__")
+    body = _body(call)
+    if not (len(body) == 2 and isinstance(body[0], ast.If) and _src(body[0].test) == "'targets' in kwargs" and not body[0].orelse
+            and isinstance(body[1], ast.Return) and _src(body[1].value) == "super().__call__(input, *args, **kwargs)"):
+        _fail("Dirichlet __call__: expected `if 'targets' in kwargs: …` followed by `return super().__call__(input, *args, **kwargs)`")
+    noise_name = None
+    wrote = False
+    for st in body[0].body:
+        if isinstance(st, ast.Assign) and _src(st) == "targets = kwargs.pop('targets')":
+            continue
+        if isinstance(st, ast.Assign) and _is_name(st.targets[0], "dtype"):
+            continue
+        if isinstance(st, ast.Assign) and _call_name(st.value) == "_prepare_targets":
+            c = st.value
+            if not (len(c.args) == 1 and _is_name(c.args[0], "targets") and isinstance(st.targets[0], ast.Tuple)):
+                _fail("Dirichlet __call__: _prepare_targets must be applied to the call-time targets", st)
+            kws = {k.arg: _src(k.value) for k in c.keywords}
+            e = kws.get("alpha_epsilon")
+            info["call_eps"] = {"self.alpha_epsilon": "self", None: "default"}.get(e)
+            ncs = kws.get("num_classes")
+            info["call_nc"] = {"self.num_classes": "self", None: "infer"}.get(ncs)
+            if info["call_eps"] is None or info["call_nc"] is None:
+                _fail("Dirichlet __call__: alpha_epsilon / num_classes argument outside the vocabulary", c)
+            noise_name = _src(st.targets[0].elts[0])
+            continue
+        if isinstance(st, ast.Assign) and _src(st.targets[0]) == "kwargs['noise']" and _src(st.value) == noise_name:
+            wrote = True
+            continue
+        _fail("Dirichlet __call__: statement outside the vocabulary", st)
+    if not wrote or "call_eps" not in info:
+        _fail("Dirichlet __call__: the transformed call-time targets must become kwargs['noise']")
+    return info
+
+
+# ---------------------------------------------------------------------------------------------- missing observations
+
+def missing_obs(tree):
+    cls = _cls(tree, "GaussianLikelihoodWithMissingObs")
+    fill = None
+    for st in cls.body:
+        if isinstance(st, ast.AnnAssign) and _is_name(st.target, "MISSING_VALUE_FILL"):
+            v = st.value
+            if isinstance(v, ast.UnaryOp) and isinstance(v.op, ast.USub) and isinstance(v.operand, ast.Constant):
+                fill = -v.operand.value
+            elif isinstance(v, ast.Constant):
+                fill = v.value
+    if not isinstance(fill, (int, float)) or fill != fill or fill in (float("inf"), float("-inf")):
+        _fail("GaussianLikelihoodWithMissingObs: MISSING_VALUE_FILL must be a finite constant")
+    fn = _method(cls, "_get_masked_obs")
+    b = [_src(x) for x in _body(fn)]
+    if b != ["missing_idx = x.isnan()", "x_masked = x.masked_fill(missing_idx, self.MISSING_VALUE_FILL)",
+             "return (missing_idx, x_masked)"]:
+        _fail("GaussianLikelihoodWithMissingObs._get_masked_obs: body outside the vocabulary", fn)
+    info = {"fill": fill}
+    for meth, arg, sup in (("expected_log_prob", "target", "super().expected_log_prob(target, input, *params, **kwargs)"),
+                           ("log_marginal", "observations", "super().log_marginal(observations, function_dist, *params, **kwargs)")):
+        b = _body(_method(cls, meth))
+        if not (len(b) == 3 and _src(b[0]) == f"missing_idx, {arg} = self._get_masked_obs({arg})"
+                and _src(b[1]) == f"res = {sup}" and isinstance(b[2], ast.Return)):
+            _fail(f"GaussianLikelihoodWithMissingObs.{meth}: body outside the vocabulary", b[0] if b else None)
+        r = _src(b[2].value)
+        mask = {"res * ~missing_idx": "observed", "~missing_idx * res": "observed", "res * missing_idx": "missing",
+                "res": "none"}.get(r)
+        if mask is None:
+            _fail(f"GaussianLikelihoodWithMissingObs.{meth}: return value outside the vocabulary", b[2])
+        info[meth] = mask
+    b = _body(_method(cls, "marginal"))
+    if not (len(b) == 1 and isinstance(b[0], ast.Return) and _src(b[0].value) == "super().marginal(function_dist, *args, **kwargs)"):
+        _fail("GaussianLikelihoodWithMissingObs.marginal: must be the GaussianLikelihood marginal")
+    return info
+
+
 # ---------------------------------------------------------------------------------------------- property getters
 
 _INPLACE_OK = {"requires_grad_"}        # not a value write; (not used by any getter today)
@@ -709,6 +1026,21 @@ def render(repo):
     call_n, call_p = likelihood_list(ll, "__call__")
     fwd_n, fwd_p = likelihood_list(ll, "forward")
     getters = property_getters([nm, gl, mt, ll])
+    het = hetero_forward(nm)
+    dirc = dirichlet(gl)
+    miss = missing_obs(gl)
+    from fractions import Fraction
+    T = "transform " if het["transform"] else ""
+    # alpha[p, q] is incremented at the index pairs (arange_j, labels_j) resp. (labels_j, arange_j)
+    cond = "labels p = q" if dirc["onehot"] == ["arange", "labels"] else "labels q = p"
+    # alpha of (point i, class c) in the (dim0, dim1) layout of the tensor
+    at_ic = "i c" if dirc["alpha_layout"] == ["point", "class"] else "c i"
+    at_ci = "c i" if dirc["alpha_layout"] == ["point", "class"] else "i c"
+    # the likelihood reads the noise tensor as [class (batch), point]: entry [c, i] of the returned tensor
+    noise_at = at_ic if dirc["noise_transposed"] else at_ci
+    targ_at = at_ic if dirc["target_transposed"] else at_ci
+    masks = {"observed": "(if missing then 0 else 1)", "missing": "(if missing then 1 else 0)", "none": "1"}
+    fillq = Fraction(miss["fill"])
 
     def kron(order):
         if order == ("eye_lt", "task_var_lt"):
@@ -717,7 +1049,8 @@ def render(repo):
     o_il, o_nil = mti["orders"]
     facts = {"fixed_forward": fixed, "homo_forward": homo, "marginal": marg, "fixed_forwards_noise": [fwd1, fwd2],
              "multitask_orders": [list(o_il), list(o_nil)], "list_call": [call_n, call_p], "list_forward": [fwd_n, fwd_p],
-             "log_marginal_clamp": clamp, "property_getters": [[g, w] for g, w in getters]}
+             "log_marginal_clamp": clamp, "property_getters": [[g, w] for g, w in getters],
+             "hetero": het, "dirichlet": dirc, "missing_obs": miss}
     getters_lean = ",\n   ".join(f"({_lstr(g)}, [{', '.join(_lstr(x) for x in w)}])" for g, w in getters)
     text = f"""/-
 GENERATED by harness/translate/g7_noise_models.py from $VERIF_REPO/gpytorch/likelihoods/
@@ -726,6 +1059,9 @@ Decision structure and closed-form expressions of the Gaussian-family noise plum
 vocabulary of GPVerif/Model/Noise.lean.  Props/C12.lean proves these equal to the specification; drivers/C12.lean runs them.
 -/
 import GPVerif.Model.Noise
+import GPVerif.Model.NoiseExtra
+
+set_option linter.unusedVariables false
 
 namespace Gen.NoiseModels
 variable {{α : Type}}
@@ -796,6 +1132,80 @@ def listForwardRoute {{L A N : Type}} (liks : List L) (args : List A) (noise : O
   | none => {_route(fwd_p, False)}
   | some ns =>
     {_route(fwd_n, True)}
+
+/-! ### `HeteroskedasticNoise.forward` -/
+
+/-- single-output noise model: call-time noise first, else `DiagLinearOperator({'constraint.transform(' if het['transform'] else '('}output.mean))`. -/
+def heteroForward [Zero α] (transform : α → α) (n : Nat) (μ : Fin n → α) (call : Option (Fin n → α)) : DMat n n α :=
+  if call.isSome then Noise.retDiagCall call
+  else DMat.diagonal fun i => {T}(μ i)
+
+/-- multi-output noise model with `noise_indices`: `{'transform(' if het['transform'] else '('}output.mean[..., noise_indices])` of one point. -/
+def heteroTaskDiagGen {{t k : Nat}} (transform : α → α) (μ : Fin t → α) (idx : Fin k → Fin t) : Fin k → α :=
+  fun a => {T}(μ (idx a))
+
+/-- mode handling around the call of the noise model, in source order. -/
+def heteroProtocolGen : List String := [{', '.join(_lstr(x) for x in het['protocol'])}]
+
+/-! ### `DirichletClassificationLikelihood` -/
+
+/-- `alpha[p, q]` after the one-hot increment (tensor layout {dirc['alpha_layout']}, index {dirc['onehot']}). -/
+def dirAlphaEntryGen [Add α] [Mul α] [One α] (eps : α) (labels : Nat → Nat) (p q : Nat) : α :=
+  if {cond} then (eps * 1) + 1 else (eps * 1)
+
+/-- `sigma2_i` as a function of one entry `a` of `alpha`. -/
+def dirSigma2Gen [Add α] [Sub α] [Mul α] [Div α] [One α] (log : α → α) (half : α) (a : α) : α :=
+  {dirc['sigma2']}
+
+/-- `transformed_targets` as a function of one entry `a` of `alpha`. -/
+def dirTargetGen [Add α] [Sub α] [Mul α] [Div α] [One α] (log : α → α) (half : α) (a : α) : α :=
+  {dirc['target']}
+
+/-- entry `[c, i]` (class = batch element, point) of the noise tensor handed to `FixedGaussianNoise`
+(returned tensor transposed: {dirc['noise_transposed']}). -/
+def dirNoiseEntryGen [Add α] [Sub α] [Mul α] [Div α] [One α] (log : α → α) (half eps : α) (labels : Nat → Nat)
+    (c i : Nat) : α :=
+  dirSigma2Gen log half (dirAlphaEntryGen eps labels {noise_at})
+
+/-- entry `[c, i]` of `self.transformed_targets` (transposed in total: {dirc['target_transposed']}). -/
+def dirTargetEntryGen [Add α] [Sub α] [Mul α] [Div α] [One α] (log : α → α) (half eps : α) (labels : Nat → Nat)
+    (c i : Nat) : α :=
+  dirTargetGen log half (dirAlphaEntryGen eps labels {targ_at})
+
+/-- `__call__(…, targets=…)`: `alpha_epsilon` used for the call-time labels ({dirc['call_eps']}; default of `_prepare_targets`: {dirc['default_eps']}). -/
+def dirCallEps (epsSelf epsDefault : α) : α := {'epsSelf' if dirc['call_eps'] == 'self' else 'epsDefault'}
+
+/-- … and the number of classes (rows of the call-time noise): {dirc['call_nc']}. -/
+def dirCallNumClasses (ncSelf ncInferred : Nat) : Nat := {'ncSelf' if dirc['call_nc'] == 'self' else 'ncInferred'}
+
+/-- the noise operator of class `c` (batch element `c` of the likelihood): `FixedNoiseGaussianLikelihood._shaped_noise_covar`
+on the transformed labels; call-time labels become the call-time `noise`. -/
+def dirichletShaped [Zero α] [Add α] [Sub α] [Mul α] [Div α] [One α] (log : α → α) (half eps epsDefault : α)
+    (labels : Nat → Nat) (N c : Nat) (learned : Option α) (n : Nat) (callLabels : Option (Nat → Nat)) : DMat n n α :=
+  fixedShaped (Array.ofFn (n := N) fun i => dirNoiseEntryGen log half eps labels c i.1) learned n
+    (callLabels.map fun ls => fun i : Fin n => dirNoiseEntryGen log half (dirCallEps eps epsDefault) ls c i.1)
+
+/-! ### `GaussianLikelihoodWithMissingObs` -/
+
+/-- `MISSING_VALUE_FILL` = {miss['fill']}. -/
+def missingFillValue : Rat := ({fillq.numerator} : Int) / ({fillq.denominator} : Nat)
+
+/-- `expected_log_prob`: `_get_masked_obs`, the GaussianLikelihood term on the filled target, times the mask ({miss['expected_log_prob']}). -/
+def missingElpGen [Zero α] [One α] [Add α] [Sub α] [Mul α] [Div α] [Neg α] (log : α → α) (log2pi half fill : α)
+    (y : Option α) (m v r : α) : α :=
+  let missing := y.isNone
+  let target := y.getD fill
+  (expectedLogProbExpr log log2pi half target m v r) * {masks[miss['expected_log_prob']]}
+
+/-- `log_marginal`: likewise (mask: {miss['log_marginal']}). -/
+def missingLmGen [Zero α] [One α] [Add α] [Sub α] [Mul α] [Div α] [Neg α] (log : α → α) (log2pi half fill : α)
+    (y : Option α) (m v r : α) : α :=
+  let missing := y.isNone
+  let target := y.getD fill
+  (logMarginalExpr log log2pi half target m v r) * {masks[miss['log_marginal']]}
+
+/-- `marginal` is the GaussianLikelihood marginal. -/
+def missingMarginalGen [Add α] {{n : Nat}} (C R : DMat n n α) : DMat n n α := marginalExpr C R
 
 /-- every `@property` getter of the classes of the four files, with the state writes its body performs (assignments to
 attributes / items, augmented assignments also through a local alias, in-place tensor methods, mutating calls). -/
